@@ -176,6 +176,15 @@ def run_pkg(tmp, repo, prop, tier, seed, pkg, replay_input):
             return None, "unreadable result file: %s" % e, 2
     if res is not None:
         res["go_test_rc"] = rc
+        if rc != 0 and not res.get("failures") and "WARNING: DATA RACE" in text:
+            # -race reported a data race although every answer was right: that IS the violation of a
+            # race-freedom property (seed C11-a1: a sync.Pool of iterator buffers shared between readers)
+            i = text.index("WARNING: DATA RACE")
+            res["failures"] = [{"clause": "race-free under concurrent readers (go test -race)",
+                                "desc": "the race detector reported a data race: " + " | ".join(l.strip() for l in text[i:i + 1500].splitlines()[:14]),
+                                "input": {"prop": prop, "kind": "no-failing-input-found", "tier": tier, "seed": seed,
+                                          "s": {"race_report": text[i:i + 4000], "note": "schedule-dependent: re-run the quick check (same seed) to reproduce"}}}]
+            res["failure_count"] = 1
         if rc != 0 and not res.get("failures"):
             # the test binary failed for a reason that is not a recorded property failure
             return None, "go test failed (rc=%d) although no property failure was recorded:\n%s" % (rc, text[-3000:]), 2
